@@ -100,6 +100,17 @@ func Harness_C16_initialize_over_existing_tape() {
 			vm.Assert("C16.view_equals_scratch_rebuild", c01SameView(env.Metadata, sm, u))
 		}
 	}
+	// faithful also means usable: a file the instance shows with a size can be read back in full
+	if st, e := v.FS.Stat("/d/g"); e == nil && !st.IsDir() && st.Size() > 0 {
+		rh, oe := v.FS.Open("/d/g")
+		vm.Assert("C16.shown_file_opens", oe == nil)
+		if oe == nil {
+			buf := make([]byte, 701)
+			n, _ := rh.Read(buf)
+			vm.Assert("C16.shown_file_reads_back_in_full", int64(n) == st.Size())
+			rh.Close()
+		}
+	}
 	if readOnly || tapeState == 1 {
 		// (appending after a tail that is cut inside header blocks makes old header bytes run into new ones;
 		// how archive/tar parses that overlap is a byte-level question the structural tape model cannot answer)
